@@ -307,6 +307,25 @@ def gen_instance(rng, *, d=None, k=None, N=None, vtype="sympy", fdkind=None,
         inst["fdkind"], inst["fd_blocks"], inst["masks"] = "dict", [b], {b: msk}
         if not well_posed(inst):
             raise Regenerate("corner instance ill posed")
+    if corner == "partial_tuple":
+        # corner stratum: list-form fully_diagonalize naming ONE block while another (unlisted, kept
+        # as a whole) block of size >= 2 has distinct unperturbed energies
+        big = [b for b in range(nb) if sizes[b] >= 2]
+        if nb < 2 or not big:
+            raise Regenerate("needs two blocks, one of size 2")
+        keepb = big[-1]
+        st = [i for i in range(d) if sub_idx[i] == keepb]
+        own = sorted({inst["E"][i] for i in st}, key=str)
+        pool_ = [lv for lv in levels if all(lv != inst["E"][i] for i in range(d) if sub_idx[i] != keepb)]
+        if len(pool_) < 2:
+            raise Regenerate("not enough free levels")
+        E2 = list(inst["E"])
+        E2[st[0]], E2[st[1]] = pool_[0], pool_[1]
+        inst["E"] = E2
+        listed = [b for b in range(nb) if b != keepb]
+        inst["fdkind"], inst["fd_blocks"], inst["masks"] = "tuple", [listed[0]], {}
+        if not well_posed(inst):
+            raise Regenerate("corner instance ill posed")
     if corner == "degenerate_fd":
         # corner stratum: a fully diagonalised block holding a degenerate level whose states are
         # NOT adjacent in the basis ordering (energies x, y, x)
